@@ -31,12 +31,17 @@ RULE = ('2-3 engines, histories of 6-24 operations each over {atom, assert_fact/
         '(shared inside one fact, partially bound) under one key, optionally reached through a rule; 3-6 generator slots on that '
         'predicate opened / advanced / finished in non-nested order (mostly oldest first: closed, dropped, replaced, exhausted '
         'while a younger one stays suspended, then a new one), query patterns from a small pool of constants (clash / compatible). '
-        'Family SC: K generators (3-8 with depths 2-14, compared with the Coq model; K in {5,20,40} with depths 100-200, metamorphic '
+        'Family SH: the SAME Python objects given to 2-3 engines of one run - function objects (*args / (first, *rest) / fixed '
+        'signature; def, bound method, callable instance, functools.wraps, partial) registered under different styles (arity None / -1 / k), '
+        'tuples of argument term objects asserted through the three assert APIs, one script string - with clear() at any moment and '
+        'queries of the registered names at all arities 0..3. '
+        'Family SC: K generators (3-8 with depths 2-14, compared with the Coq model; K in {5,20,40} with depths 100-200 and K = 150 with '
+        'depths 200-250 (about 65000 calls alive at once; thorough also 100/250/400 generators), metamorphic '
         'oracle only) suspended inside recursive predicates at the same time, advanced in chunks in random order, then probe '
         'queries (shallow and deep), closes oldest-first / random, more probes. Non-trivial: (mixed) two engines hold different '
         'contents under one predicate name and at least two generators are suspended on an answer simultaneously; (NL) >= 3 '
         'generators on one predicate and a non-LIFO finish followed by a new start while the younger one is live; (SC) >= 3 '
-        'suspended at once. Distinct by hash of the case.')
+        'suspended at once; (SH) a function object registered on two engines under different styles or an argument tuple asserted into two engines. Distinct by hash of the case.')
 TRUSTED_BASE = [
     'Coq 8.16.1 kernel (coqc); vm_compute for the in-Coq evaluation of the model on every case',
     'no axioms: all C04 theorems are closed under the global context',
@@ -56,7 +61,9 @@ ASSUMPTIONS = ['engines do not share Variable objects; simultaneously suspended 
                'within one engine, a query is only promised to be independent of the writes other suspended queries make to keys '
                'of the fact store it does not touch (theorem C04_same_engine_slots_K; refuted otherwise); the same-engine oracle is '
                'applied under the static counterpart of that condition',
-               'cases in which a match needs a cyclic term (model error code 2) are unspecified and skipped',
+               'cases in which a match needs a cyclic term (model error code 2) are unspecified and skipped (a RecursionError in the run '
+               'alone switches the oracle off, except in the scale family, whose programs build no cyclic terms)',
+               'shared inputs (family SH) contain nothing that belongs to an engine: numbers, strings, Functor objects, pure functions',
                'evaluate_bounded (interpreter-wide recursion limit) is outside the statement']
 CASE_TIMEOUT = 120
 COQ_CHUNK = 25
@@ -1541,7 +1548,7 @@ def gen(rng, tier):
     # round 4 (own random streams again): the same function / term / script objects given to several engines, and scale
     # cases in which the SUM of the depths of the suspended generators is large (K x depth calls alive at once)
     r3 = random.Random(r2.random())
-    sh = [gen_sh_case(r3) for _ in range(40 if quick else 400)]
+    sh = [gen_sh_case(r3) for _ in range(32 if quick else 400)]
     r4 = random.Random(r3.random())
     full += [gen_sc_case(r4, k, lo, hi, False) for k, lo, hi in ([(150, 200, 250)] if quick else [(150, 200, 250), (100, 150, 250), (250, 150, 200), (400, 60, 120)])]
     if quick:
